@@ -42,7 +42,7 @@ def cells(tier, seed, salt=''):
         if order == 2 and rnd.random() < 0.5:
             h, w = rnd.choice([8, 16, 24, 32]), rnd.choice([8, 16, 24])
         out.append({'order': order, 'biort': b, 'qshift': q, 'magbias': rnd.choice([0.0, 1e-6, 1e-2, 1e-2, 1.0, 10.0]),
-                    'colour': colour, 'shape': [h, w], 'N': rnd.choice([1, 2]), 'C': 3 if colour else rnd.choice([1, 2, 3]),
+                    'colour': colour, 'shape': [h, w], 'N': rnd.choice([1, 2]), 'C': 3 if colour else rnd.choice([1, 2, 3, 4]),
                     'kind': rnd.choice(KINDS)})
     return out
 
